@@ -19,7 +19,7 @@ pub fn fmovie_json(m: &LFragMovie) -> Value {
             "tfdt_version": r.tfdt_version, "base_time": r.base_time, "samples": r.samples.iter().map(|s| json!([s.size, s.delta, s.cts])).collect::<Vec<_>>()})).collect::<Vec<_>>()).collect::<Vec<_>>()})
 }
 
-fn compare<R: std::io::Read + std::io::Seek>(prop: &str, mode: &str, family: &str, m: &LFragMovie, r: &mut Mp4Reader<R>, exp: &[(u32, Vec<FExpect>)], anchors: &Anchors, bytes_hex: Option<String>, l: &mut Local) -> bool {
+pub fn compare_pub<R: std::io::Read + std::io::Seek>(prop: &str, mode: &str, family: &str, m: &LFragMovie, r: &mut Mp4Reader<R>, exp: &[(u32, Vec<FExpect>)], anchors: &Anchors, bytes_hex: Option<String>, l: &mut Local) -> bool {
     let case = || {
         let mut c = json!({"engine": "shape_frag", "family": family, "mode": mode, "movie": fmovie_json(m)});
         if let Some(h) = &bytes_hex {
@@ -130,7 +130,7 @@ pub fn judge(prop: &str, family: &str, m: &LFragMovie, l: &mut Local) {
         match guard(|| Mp4Reader::read_header(Cursor::new(&bytes[..]), bytes.len() as u64)) {
             Ok(Ok(mut r)) => {
                 l.validated += 1;
-                if compare(prop, "one_stream", family, m, &mut r, &exp, &anchors, hexs, l) {
+                if compare_pub(prop, "one_stream", family, m, &mut r, &exp, &anchors, hexs, l) {
                     l.outcome(&format!("ok:one_stream:{}", family));
                     if total >= 2 {
                         l.nontrivial += 1;
@@ -155,7 +155,7 @@ pub fn judge(prop: &str, family: &str, m: &LFragMovie, l: &mut Local) {
         match opened {
             Ok(Ok(mut r)) => {
                 l.validated += 1;
-                if compare(prop, "separate_segments", family, m, &mut r, &exp, &anchors, hexs, l) {
+                if compare_pub(prop, "separate_segments", family, m, &mut r, &exp, &anchors, hexs, l) {
                     l.outcome(&format!("ok:separate:{}", family));
                     if total >= 2 {
                         l.nontrivial += 1;
